@@ -291,4 +291,56 @@ termination_by st.inp.length
 def preprocess (c : Cfg) (text : List G) : Option (List G) :=
   (run c { out := [], inp := text, start := 0, end_ := 0 }).map fun st => st.out ++ st.inp
 
+/-! ## which shaper is in charge: the planner's choice (`hb_ot_shape_planner_t::new`)
+
+  The Hangul preprocessing above runs only when the plan's shaper is the Hangul shaper.  The planner starts from
+  the shaper `hb_ot_shape_complex_categorize` gives for the script (a parameter here: `cat`) and replaces it by the
+  "dumber" shaper exactly when AAT `morx` is going to be APPLIED.  `Gen.Hangul.plannerProbe` is what the compiled
+  crate answers on the 16 table environments × directions (theorem `C12_gen_planner_probe`). -/
+
+/-- a shaper record as the planner sees it (`&'static hb_ot_shaper_t`, compared by address) -/
+inductive Shaper where
+  /-- `DEFAULT_SHAPER` -/
+  | default
+  /-- `DUMBER_SHAPER` (no normalization-dependent work, used under AAT) -/
+  | dumber
+  /-- `HANGUL_SHAPER` -/
+  | hangul
+  /-- any other shaper record -/
+  | other (k : Nat)
+deriving DecidableEq, Repr, Inhabited
+
+/-- the code used by `Gen.Hangul.plannerProbe` and by the driver: position in `shaperNames` -/
+def Shaper.code : Shaper → Nat
+  | .default => 0
+  | .dumber => 1
+  | .hangul => 2
+  | .other k => k + 3
+
+def Shaper.ofCode : Nat → Shaper
+  | 0 => .default
+  | 1 => .dumber
+  | 2 => .hangul
+  | k + 3 => .other k
+
+/-- what `hb_ot_shape_planner_t::new` reads of the face and of the run -/
+structure PlanEnv where
+  /-- `face.tables().morx.is_some()` -/
+  hasMorx : Bool
+  /-- `face.gsub.is_some()` -/
+  hasGsub : Bool
+  /-- `direction.is_horizontal()` -/
+  horizontal : Bool
+deriving DecidableEq, Repr
+
+-- src: ot_shape.rs::hb_ot_shape_planner_t::new  `let apply_morx = morx.is_some() && (direction.is_horizontal() || gsub.is_none())`
+def applyMorx (e : PlanEnv) : Bool := e.hasMorx && (e.horizontal || !e.hasGsub)
+
+-- src: ot_shape.rs::hb_ot_shape_planner_t::new  `if apply_morx && shaper != &DEFAULT_SHAPER { shaper = &DUMBER_SHAPER }`
+def planShaper (cat : Shaper) (e : PlanEnv) : Shaper :=
+  if applyMorx e && cat != Shaper.default then Shaper.dumber else cat
+
+/-- direction codes of the probe / the driver: 0 LTR, 1 RTL, 2 TTB, 3 BTT -/
+def dirHorizontal (d : Nat) : Bool := decide (d < 2)
+
 end RbModel.Hangul
